@@ -602,7 +602,7 @@ class Optimizer(object):
         if hasattr(self, "_last_X") and strategy in ["topk", "boltzmann"]:
             if strategy == "topk":
                 idx = np.argsort(self._last_values)[:n_points]
-                next_samples = self._last_X[idx].tolist()
+                next_samples = self.space.inverse_transform(self._last_X[idx])
 
                 # to track sampled values and avoid duplicates
                 self.sampled.extend(next_samples)
@@ -652,9 +652,13 @@ class Optimizer(object):
                         trials += 1
                     else:
                         idx.append(new_idx)
-                        self.sampled.append(self._last_X[new_idx].tolist())
+                        self.sampled.append(
+                            self.space.inverse_transform(
+                                self._last_X[new_idx].reshape(1, -1)
+                            )[0]
+                        )
 
-                return self._last_X[idx].tolist()
+                return self.space.inverse_transform(self._last_X[idx])
             else:
                 raise ValueError(
                     f"'{strategy}' is not a valid multi-point acquisition strategy!"
